@@ -94,6 +94,8 @@ Fixpoint Execute (fuel : nat) (n : node) (v : value) {struct fuel} : outcome val
     | ASTIndex =>
       match v with
       | VArr l =>
+        if two63 <=? zlen l then OutOfFuel   (* len(slice) < 2^63 in Go: a longer list is outside the model *)
+        else
         match val with
         | NVInt index0 =>
           let index := if index0 <? 0 then wrap64 (index0 + zlen l) else index0 in
@@ -149,6 +151,8 @@ Fixpoint Execute (fuel : nat) (n : node) (v : value) {struct fuel} : outcome val
     | ASTSlice =>
       match v with
       | VArr l =>
+        if two63 <=? zlen l then OutOfFuel   (* as for ASTIndex *)
+        else
         match val with
         | NVSlice a b c => r <- slice_go l (mk_param a) (mk_param b) (mk_param c) ;; Ok (VArr r)
         | _ => Panic               (* node.value.([]*int) *)
